@@ -21,12 +21,12 @@ claims = {
          "(open/openat: write whenever O_ACCMODE != 0 or O_CREAT or O_TRUNC; openat2: write unless open_how could be read and says read-only) and the path kres(pid, dirfd, string at the path register), where the directory descriptor is read as the kernel reads it (C int: low 32 bits, sign-extended) from the right register; "
          "absPath/absPathAt choose the base exactly by the kernel rule (absolute: /, AT_FDCWD: cwd, else the descriptor's directory, unresolvable -> empty path); procfs references go to the procfs policy; the string itself is assembled from chunks read at the tracee addresses that correspond to their place in the buffer (vmReadStr call-site obligation). Found and fixed: dirfd decoded from the whole 64-bit register; symlinkat decoded with mkdirat's argument positions. "
          "Bounded part (labelled bounded): the symlink walk resolveTraceePath itself is compared with the kernel on a real tree for every path up to 4 (thorough: 5) components; it exposes two genuine defects kept as known findings (lexical '..' before symlink expansion; final symlink followed for no-follow calls)."),
-   note=TRUST + "decode table (spec in the Handle contract) transcribed from the man pages; GetString/tracee memory, /proc readlinks (getProcCwd/getProcFd verified for safety, results abstract), ToSyscallName table and readOpenHowFlags are trusted/abstracted; calls the handler does not decode (mkdir, rmdir, creat, truncate, chown, utimes ...) go to the syscall-name policy and are outside the statement's 'path it presents'; the resolver is only bounded-checked, never counted as proved.",
+   note=TRUST + "decode table (spec in the Handle contract) transcribed from the man pages; GetString/tracee memory, /proc readlinks (getProcCwd/getProcFd verified for safety, results abstract), ToSyscallName table is trusted; readOpenHowFlags is verified for which tracee, which address and how many bytes it reads (the value read stays vocabulary); calls the handler does not decode (mkdir, rmdir, creat, truncate, chown, utimes ...) go to the syscall-name policy and are outside the statement's 'path it presents'; the resolver is only bounded-checked, never counted as proved.",
    design_ref="DESIGN.md §4 C02"),
  "C03": dict(level="proof",
    text=("Tracer side: handleTrap (ban => exactly one register write with syscall number -1 for that pid, kill => error, allow => no write), handle (a non-Normal verdict is returned without continuing the tracee; "
          "every PtraceCont of a stopped pid happens after its options word was installed; option word = SECCOMP|EXITKILL|FORK|CLONE|VFORK|EXEC), setPtraceOption, skipSyscall, SetReturnValue. "
-         "Child side (forkAndExecInChild, model K): when ptrace and a filter are both requested the child has called TRACEME and stopped itself before the filter is loaded."),
+         "Child side (forkAndExecInChild, model K): when ptrace and a filter are both requested the child has called TRACEME and stopped itself before the filter is loaded. Tracer.Trace pins the goroutine to its OS thread before the launcher runs and keeps it pinned while the trace loop runs (ptrace requests are thread-bound)."),
    note=TRUST + "kernel model T/K: a stop with syscall number -1 skips the call; options are inherited by auto-attached children; SIGSYS on filter kill. runner/ptrace Handle: verdict in {allow, ban, kill}, ban sets the return register to -BanRet and nothing else touches it, combineTraceActions (kill dominates ban dominates allow), invalid syscall number => kill.",
    design_ref="DESIGN.md §4 C03"),
  "C04": dict(level="proof",
@@ -58,7 +58,7 @@ claims = {
  "C09": dict(level="proof",
    text=("For all 2^32 wait words: container.convertReply and ptracer handle/trace equal the README status table (main process); an exit or fatal signal of a secondary process leaves the run going with status Normal; "
          "Runner Error only with a non-empty text. syscall/unix WaitStatus methods are verified from the toolchain source, not trusted."),
-   note=TRUST + "fmt.Sprintf / error.Error non-empty-text contracts assumed. The container's wait loop reports the status of exactly the pid the exec handler asked for (wait4 of that pid, retried on EINTR; a reap-all request waits for any child). Host container.convertReplyResult/errResult are under contract (status copied through, Runner Error carries text). unshare.Run: at every return the verdict equals the table (MLE over TLE by the reported usage first, then exit code / signal), the reported time and memory are the compared ones, Runner Error carries text; the nanosecond conversion itself is only proved for the ptrace runner (checkUsage).",
+   note=TRUST + "fmt.Sprintf / error.Error non-empty-text contracts assumed. The container's wait loop reports the status of exactly the pid the exec handler asked for (wait4 of that pid, retried on EINTR; a reap-all request waits for any child). Host container.convertReplyResult/errResult are under contract (status copied through, Runner Error carries text), and waitForDone hands the caller exactly the verdict of one conversion, unmodified, on each of its three paths (ghost CR); Tracer.Trace: a launcher failure is a Runner Error with the launcher's text. unshare.Run: at every return the verdict equals the table (MLE over TLE by the reported usage first, then exit code / signal), the reported time and memory are the compared ones, Runner Error carries text; the nanosecond conversion itself is only proved for the ptrace runner (checkUsage).",
    design_ref="DESIGN.md §4 C09"),
  "C10": dict(level="proof",
    text=("Typestate proof of both ends of the RPC against one protocol automaton (spec/protocol.contracts; ghost P.st for the container init, H.st for the host; states idle/awaiting-reply/exec-sync/.../LOST). "
@@ -86,7 +86,7 @@ claims = {
  "C15": dict(level="proof",
    text=("No-panic/termination obligations for tracer-side code under an unconstrained tracee: clen, hasNull, vmRead, vmReadStr, GetString, Context accessors, handle, handleTrap, trace (Runner Error only on the two launcher-side causes), IsInSetSmart/dirname; "
          "found and fixed: clen returned len+1 for unterminated buffers (slice bounds panic)."),
-   note=TRUST + "kernel model T for process_vm_readv / PEEKDATA. Also covered: every function of runner/ptrace/handle_linux.go that runs on tracee-controlled registers and strings (Handle, the check* family, absPath/absPathAt, getString*, checkProcPath, isAllowedProcAlias, isDangerousProcPath, normalizeProcMagicPath, resolveTraceePath with its 40-step bound, resolveTraceePathOnce, getProcCwd/getProcFd) - no index/slice/nil/overflow failure for any input, with strings/filepath/os helpers as assumed contracts; readOpenHowFlags stays trusted. Every ptrace stop that does not end the run resumes the tracee (continue count +1) and a stop signal other than SIGXCPU/SIGXFSZ never decides the verdict. 'Never stops making progress' is otherwise proved as loop termination (decreases / bounded counters) of the tracer-side loops only; blocking in the kernel is out of reach.",
+   note=TRUST + "kernel model T for process_vm_readv / PEEKDATA. Also covered: every function of runner/ptrace/handle_linux.go that runs on tracee-controlled registers and strings (Handle, the check* family, absPath/absPathAt, getString*, checkProcPath, isAllowedProcAlias, isDangerousProcPath, normalizeProcMagicPath, resolveTraceePath with its 40-step bound, resolveTraceePathOnce, getProcCwd/getProcFd) - no index/slice/nil/overflow failure for any input, with strings/filepath/os helpers as assumed contracts; readOpenHowFlags is verified too. Every ptrace stop that does not end the run resumes the tracee (continue count +1) and a stop signal other than SIGXCPU/SIGXFSZ never decides the verdict. 'Never stops making progress' is otherwise proved as loop termination (decreases / bounded counters) of the tracer-side loops only; blocking in the kernel is out of reach.",
    design_ref="DESIGN.md §4 C15"),
  "C16": dict(level="proof",
    text=("Arming only (thin): Builder.startContainer starts the container init with SysProcAttr.Pdeathsig == SIGKILL on the path that reaches exec.Cmd.Start; the ptrace option word installed for every traced pid before its first continue contains PTRACE_O_EXITKILL (C03 obligations); the container serve loop never returns nil (every transport error ends it), and container.Init, once it is the container init, never returns to its caller: every path ends in os.Exit (Init$1 ensures false)."),
